@@ -15,7 +15,7 @@ from ..cfg import cfg_of
 from ..loader import AnalysisError
 from ..terms import Evaluator, alts, contains, find, show, walk
 from .c02 import r8_skip_upload_only_on_backend_answer
-from .common import backend_events, const_of, evaluate, func_label, loc, nested_by_role, own_stmt_of_chain, repo_cls, self_calls, term_has_const
+from .common import stream_producers, backend_events, const_of, evaluate, func_label, loc, nested_by_role, own_stmt_of_chain, repo_cls, self_calls, term_has_const
 
 EXPLANATION = (
     'Provenance of the chunk location, of the chunker parameters, of the order in which files are streamed and of the piece size handed to the chunker: the terms '
@@ -229,7 +229,7 @@ def r5_stream_order(ctx):
     corpus = ctx.corpus
     snap = corpus.func('repository', 'Repository.snapshot')
     # the list iterated by the stream producer
-    producers = [p for p in snap.nested.values() if p.is_generator and any(isinstance(n, ast.Call) and isinstance(n.func, ast.Attribute) and n.func.attr == 'read' for n in walk_local(p.node))]
+    producers = stream_producers(snap)
     ctx.floor('C07.R5', 'stream producer (generator that reads files)', len(producers))
     for p in producers:
         ctx.analysed(p)
@@ -311,5 +311,12 @@ def run(ctx):
     r2_boundaries(ctx)
     r3_exists_before_upload(ctx)
     r8_skip_upload_only_on_backend_answer(ctx, rule='C07.R3')
+    from ..report import Relabel
+    from .c01 import r3b_chunk_record_fresh
+    from .c13 import r7_exists_answer
+
+    # a chunk is stored under the name of ITS data (no value of an earlier chunk), and "exists" answers are the store's own
+    r3b_chunk_record_fresh(Relabel(ctx, 'C07.R4'), rule='C07.R4')
+    r7_exists_answer(Relabel(ctx, 'C07.R3'), rule='C07.R3')
     r4_table(ctx)
     r5_stream_order(ctx)
